@@ -29,6 +29,21 @@ pub struct SortCase {
     /// alternative to cancel_at: raise the flag at this fraction (x/65536) of 2*n*log2(n) comparisons
     #[serde(default)]
     pub cancel_frac: Option<u16>,
+    /// the comparator lowers the flag again this many comparisons after it raised it
+    #[serde(default)]
+    pub lower_after: Option<u16>,
+    /// sort elements that have drop glue (a drop counter) instead of plain pairs
+    #[serde(default)]
+    pub dropping: bool,
+}
+
+/// an element with drop glue: every drop is counted
+struct Counted(u32, u32);
+static DROPS: AtomicU64 = AtomicU64::new(0);
+impl Drop for Counted {
+    fn drop(&mut self) {
+        DROPS.fetch_add(1, Ordering::SeqCst);
+    }
 }
 
 fn h(i: u32, salt: u32) -> u32 {
@@ -153,7 +168,49 @@ fn run_sort(c: &SortCase, threads: usize, data: &[(u32, u32)]) -> Result<(Vec<(u
     }
     let total = c.total;
     let cancel_at = effective_cancel(c).map(|x| x as u64);
+    let lower_at = match (cancel_at, c.lower_after) {
+        (Some(a), Some(d)) if a > 0 => Some(a + 1 + d as u64),
+        _ => None,
+    };
     let p = pool(threads);
+    if c.dropping && c.arrangement != 8 {
+        // the same sort over elements with drop glue: nothing may be dropped (or duplicated) by the sort
+        let mut w: Vec<Counted> = data.iter().map(|e| Counted(e.0, e.1)).collect();
+        DROPS.store(0, Ordering::SeqCst);
+        let res = guarded(|| {
+            p.install(|| {
+                par_quicksort(
+                    &mut w,
+                    |a, b| {
+                        let k = calls.fetch_add(1, Ordering::Relaxed) + 1;
+                        if Some(k) == cancel_at {
+                            flag.store(true, Ordering::Relaxed);
+                            raised.store(true, Ordering::Relaxed);
+                        }
+                        if Some(k) == lower_at {
+                            flag.store(false, Ordering::Relaxed);
+                        }
+                        if total {
+                            (a.0, a.1) < (b.0, b.1)
+                        } else {
+                            a.0 < b.0
+                        }
+                    },
+                    &flag,
+                )
+            })
+        })?;
+        let during = DROPS.load(Ordering::SeqCst);
+        let v: Vec<(u32, u32)> = w.iter().map(|e| (e.0, e.1)).collect();
+        let n = w.len() as u64;
+        drop(w);
+        let after = DROPS.load(Ordering::SeqCst);
+        if during != 0 || after != during + n {
+            return Err(format!("DROPPED: the sort dropped {during} element(s) of the slice it was sorting ({} drops in total for {n} elements)", after));
+        }
+        LAST_CALLS.with(|l| l.set(calls.load(Ordering::Relaxed)));
+        return Ok((v, res, raised.load(Ordering::Relaxed)));
+    }
     // McIlroy's lazy adversary; a descending pre-frozen prefix defeats the "likely sorted" shortcut
     let adv = (c.arrangement == 8).then(|| {
         let pre = (c.salt % 40 + 8).min(c.n);
@@ -172,6 +229,9 @@ fn run_sort(c: &SortCase, threads: usize, data: &[(u32, u32)]) -> Result<(Vec<(u
                     if Some(k) == cancel_at {
                         flag.store(true, Ordering::Relaxed);
                         raised.store(true, Ordering::Relaxed);
+                    }
+                    if Some(k) == lower_at {
+                        flag.store(false, Ordering::Relaxed);
                     }
                     if let Some(adv) = &adv {
                         let mut s = adv.lock();
@@ -226,7 +286,7 @@ impl Check for C18 {
         c.nucleo_items > 0
     }
     fn rule(&self) -> String {
-        "slices of (key,id) with lengths {0..3, 19..22, 49..51, 23..2000, 1999..2002, 4001, 4095..4097, 2003..20000, 2^15/2^16/2^17 +-1, 262143, 300000}; arrangements random / sorted / reversed / organ-pipe / saw-tooth / few distinct keys / all equal / sorted-with-swaps / random with the largest or smallest keys at the positions pivot selection samples / sorted runs of few distinct keys with 3..n/40 overwritten positions (duplicate-heavy, nearly sorted) / McIlroy antiquicksort adversary comparator (forces heapsort and break_patterns); comparator on key only (strict weak order with ties) or (key,id) total order; own rayon pools of 1,2,3,8,16 threads; cancel flag raised by the comparator at its k-th call (0, small, mid, never); plus an end-to-end sub-check: the same items and pattern through Nucleo with 1/2/4/8 (and, in a quarter of these cases, 2*cores+1) worker threads must give identical match lists in the documented order. Oracle: multiset unchanged always; non-decreasing when 'not cancelled' is reported; 'not cancelled' whenever the flag was never raised; equal to slice::sort for total orders and across thread counts. Non-trivial: length > 20 and input not already sorted. Branch labels come from the SORT_* hook counters; one template per branch runs in every run.".into()
+        "slices of (key,id) with lengths {0..3, 19..22, 49..51, 23..2000, 1999..2002, 4001, 4095..4097, 2003..20000, 2^15/2^16/2^17 +-1, 262143, 300000}; arrangements random / sorted / reversed / organ-pipe / saw-tooth / few distinct keys / all equal / sorted-with-swaps / random with the largest or smallest keys at the positions pivot selection samples / sorted runs of few distinct keys with 3..n/40 overwritten positions (duplicate-heavy, nearly sorted) / McIlroy antiquicksort adversary comparator (forces heapsort and break_patterns); comparator on key only (strict weak order with ties) or (key,id) total order; own rayon pools of 1,2,3,8,16 threads; cancel flag raised by the comparator at its k-th call (0, small, mid, never), in a fifth of the cases lowered again up to 3000 (templates: 60000) calls later; a seventh of the cases sort elements with drop glue (drop counter: the sort may neither drop nor duplicate an element); plus an end-to-end sub-check: the same items and pattern through Nucleo with 1/2/4/8 (and, in a quarter of these cases, 2*cores+1) worker threads must give identical match lists in the documented order. Oracle: multiset unchanged always; non-decreasing when 'not cancelled' is reported; 'not cancelled' whenever the flag was never raised; equal to slice::sort for total orders and across thread counts. Non-trivial: length > 20 and input not already sorted. Branch labels come from the SORT_* hook counters; one template per branch runs in every run.".into()
     }
     fn total_cases(&self, tier: Tier) -> u64 {
         match tier {
@@ -235,7 +295,7 @@ impl Check for C18 {
         }
     }
     fn templates(&self, _tier: Tier) -> Vec<SortCase> {
-        let b = SortCase { n: 0, arrangement: 0, salt: 1, distinct: 0, threads: 4, cancel_at: None, total: false, nucleo_items: 0, cancel_frac: None };
+        let b = SortCase { n: 0, arrangement: 0, salt: 1, distinct: 0, threads: 4, cancel_at: None, total: false, nucleo_items: 0, cancel_frac: None, lower_after: None, dropping: false };
         let v = vec![
             SortCase { n: 6000, arrangement: 8, threads: 1, ..b.clone() },  // heapsort + break_patterns
             SortCase { n: 3000, arrangement: 8, threads: 3, ..b.clone() },
@@ -262,6 +322,14 @@ impl Check for C18 {
                 v.push(SortCase { n, arrangement: 11, salt: salt + n, threads: [1u8, 2, 4][salt as usize % 3], ..b.clone() });
             }
         }
+        // elements with drop glue; a flag that is lowered again while the sort is still running
+        for n in [100u32, 1000, 5000, 30000] {
+            v.push(SortCase { n, arrangement: 0, salt: n + 1, dropping: true, threads: 2, ..b.clone() });
+            v.push(SortCase { n, arrangement: 5, distinct: 7, salt: n + 2, dropping: true, cancel_frac: Some(30000), ..b.clone() });
+        }
+        for (n, at, d) in [(9000u32, 400u32, 50u16), (20001, 30000, 2000), (50000, 100000, 1), (300000, 400000, 60000), (300000, 1000000, 200)] {
+            v.push(SortCase { n, arrangement: 0, salt: 77, threads: 8, cancel_at: Some(at), lower_after: Some(d), ..b.clone() });
+        }
         // more worker threads than cores: per-thread scratch state of the matcher pool
         v.push(SortCase { n: 100, arrangement: 0, salt: 5, nucleo_items: 6000, ..b.clone() });
         v.push(SortCase { n: 100, arrangement: 0, salt: 9, nucleo_items: 3000, ..b.clone() });
@@ -276,10 +344,13 @@ impl Check for C18 {
     fn strategy(&self, _tier: Tier) -> BoxedStrategy<SortCase> {
         (sizes(), prop_oneof![26 => Just(0u8), 7 => Just(1u8), 7 => Just(2u8), 7 => Just(3u8), 7 => Just(4u8), 13 => Just(5u8), 4 => Just(6u8), 11 => Just(7u8), 9 => Just(8u8), 9 => Just(9u8), 14 => Just(10u8), 8 => Just(11u8)], any::<u32>(), prop_oneof![60 => Just(0u32), 40 => 1u32..40], proptest::sample::select(vec![1u8, 2, 3, 8, 16]), prop_oneof![45 => Just((None, None)), 4 => Just((Some(0u32), None)), 8 => (1u32..5000).prop_map(|k| (Some(k), None)), 8 => (5000u32..400000).prop_map(|k| (Some(k), None)), 35 => any::<u16>().prop_map(|f| (None, Some(f)))], any::<bool>(), prop_oneof![90 => Just(0u32), 10 => 1u32..6000], proptest::bool::weighted(0.45), 23u32..1200)
             .prop_map(|(n, arrangement, salt, distinct, threads, (cancel_at, cancel_frac), total, nucleo_items, small, small_n)| {
+                // derived from the salt so that the tuple stays within proptest's arity
+                let lower_after = (salt % 5 == 0).then_some((salt >> 8) as u16 % 3000);
+                let dropping = salt % 7 == 0 && n <= 70_000;
                 // cancellation inside small (sequential) sorts is only reachable with small slices
                 let n = if cancel_frac.is_some() && small { small_n } else { n };
                 let n = if arrangement == 8 { n.min(8000) } else { n };
-                SortCase { n, arrangement, salt, distinct, threads, cancel_at, total, nucleo_items, cancel_frac }
+                SortCase { n, arrangement, salt, distinct, threads, cancel_at, total, nucleo_items, cancel_frac, lower_after, dropping }
             })
             .boxed()
     }
@@ -300,6 +371,7 @@ impl Check for C18 {
         out.nontrivial = c.n > 20 && (!sorted_input || c.arrangement == 8);
         let ctx = format!("{c:?}");
         match run_sort(c, c.threads as usize, &data) {
+            Err(p) if p.starts_with("DROPPED") => out.fail("element-dropped-by-sort", format!("{p}; {ctx}")),
             Err(p) => out.fail("panic", format!("par_quicksort panicked: {p}; {ctx}")),
             Ok((v, reported_cancel, raised)) => {
                 // permutation (ids are unique)
